@@ -1143,7 +1143,7 @@ func updateKind(kind string) bool {
 // gorm.Scan (reflect.Value.SetLen using unaddressable value: the batch is handed over as a
 // non-addressable sub-slice and RETURNING * resets the destination slice) before anything is
 // written: a read-back matter, not a write-set one; see Engine.Assumptions. Not generated.
-const genBatchReturningAll = false
+const genBatchReturningAll = true
 
 func createStructKind(kind string) bool {
 	switch kind {
